@@ -582,11 +582,12 @@ func (rw *rewriter) goStmt(g *ast.GoStmt) ast.Stmt {
 	switch f := fun.(type) {
 	case *ast.FuncLit, *ast.Ident:
 	case *ast.SelectorExpr:
-		if _, ok := f.X.(*ast.Ident); !ok {
-			name := rw.newTmp()
-			pre = append(pre, &ast.AssignStmt{Lhs: []ast.Expr{ast.NewIdent(name)}, Tok: token.DEFINE, Rhs: []ast.Expr{fun}})
-			fun = ast.NewIdent(name)
-		}
+		// a method value binds its receiver now, as the go statement does (`go x.m()`
+		// followed by `x = nil` must still call m on the old x)
+		_ = f
+		name := rw.newTmp()
+		pre = append(pre, &ast.AssignStmt{Lhs: []ast.Expr{ast.NewIdent(name)}, Tok: token.DEFINE, Rhs: []ast.Expr{fun}})
+		fun = ast.NewIdent(name)
 	default:
 		name := rw.newTmp()
 		pre = append(pre, &ast.AssignStmt{Lhs: []ast.Expr{ast.NewIdent(name)}, Tok: token.DEFINE, Rhs: []ast.Expr{fun}})
@@ -722,9 +723,12 @@ func (rw *rewriter) selectGeneral(s *ast.SelectStmt) ast.Stmt {
 	if hasDefault {
 		hd = "true"
 	}
+	resTmp := rw.newTmp()
+	pre = append(pre, &ast.AssignStmt{Lhs: []ast.Expr{ast.NewIdent(resTmp)}, Tok: token.DEFINE,
+		Rhs: []ast.Expr{&ast.CallExpr{Fun: sel("vrt", "SelectR"), Args: append([]ast.Expr{ast.NewIdent(hd)}, caseArgs...)}}})
 	sw := &ast.SwitchStmt{
 		Switch: s.Select,
-		Tag:    &ast.CallExpr{Fun: sel("vrt", "SelectG"), Args: append([]ast.Expr{ast.NewIdent(hd)}, caseArgs...)},
+		Tag:    &ast.SelectorExpr{X: ast.NewIdent(resTmp), Sel: ast.NewIdent("I")},
 		Body:   &ast.BlockStmt{Lbrace: s.Body.Lbrace, Rbrace: s.Body.Rbrace},
 	}
 	idx := 0
@@ -736,10 +740,10 @@ func (rw *rewriter) selectGeneral(s *ast.SelectStmt) ast.Stmt {
 			cl.List = []ast.Expr{&ast.BasicLit{Kind: token.INT, Value: strconv.Itoa(idx)}}
 			idx++
 			if as, ok := infos[ci].comm.(*ast.AssignStmt); ok {
-				val := &ast.CallExpr{Fun: sel("vrt", "SelVal"), Args: []ast.Expr{ast.NewIdent(infos[ci].chanTmp)}}
+				val := &ast.CallExpr{Fun: sel("vrt", "ValOf"), Args: []ast.Expr{ast.NewIdent(resTmp), ast.NewIdent(infos[ci].chanTmp)}}
 				rhs := []ast.Expr{val}
 				if len(as.Lhs) == 2 {
-					rhs = append(rhs, &ast.CallExpr{Fun: sel("vrt", "SelOk")})
+					rhs = append(rhs, &ast.SelectorExpr{X: ast.NewIdent(resTmp), Sel: ast.NewIdent("Ok")})
 				}
 				body = append([]ast.Stmt{&ast.AssignStmt{Lhs: as.Lhs, Tok: as.Tok, Rhs: rhs}}, body...)
 			}
